@@ -73,6 +73,8 @@ class FileInfo:
         new = ast.parse(self.text, filename=self.rel)      # fresh, un-annotated copy (no parent links -> cheap deep copies)
         inlined: set[str] = set()
         self._undo_closure_renames(new)
+        from .normalize import substitute_new_constants
+        self.new_constants = substitute_new_constants(self.rel, new)
 
         def process(container, owner_cls):
             for i, st in enumerate(container):
